@@ -643,7 +643,8 @@ func ctxCancelled() {
 	w := fx.Start(bus.Yes{})
 	c1, c2 := w.MustConnect(), w.MustConnect()
 	ctx, stopCtx := context.WithCancel(context.Background())
-	pA := c1.Probe(1).WithContext(ctx)
+	parent := c1.Probe(1) // the proxy the context-bound one is derived from
+	pA := parent.WithContext(ctx)
 	pB := c2.Probe(1)
 	a := subscribe("A", pA, c1)
 	b := subscribe("B", pB, c2)
@@ -671,6 +672,22 @@ func ctxCancelled() {
 	}
 	if b.err == nil && fmt.Sprint(b.got) != "[1 2 3]" {
 		failf("disturbed-by-other-unsubscribe/B", "subscriber B received %v of [1 2 3] while A cancelled with a done context", b.got)
+	}
+	// the proxy the context-bound one was derived from has its own life: it
+	// still calls and subscribes after that context ended
+	if v, err := parent.Echo(4); err != nil || v != probe.EchoResult(4) {
+		failf("call-failed/parent-proxy-after-derived-context-ended", "echo(4) through the original proxy fails after the context of a proxy derived from it (WithContext) was cancelled: %v", err)
+	} else {
+		c := subscribe("parent", parent, c1)
+		vrt.Quiesce()
+		emit(5)
+		switch {
+		case c.err != nil:
+		case fmt.Sprint(c.got) == "[5 5]":
+			failf("event-duplicated/subscription-after-a-cancel-with-done-context", "A cancelled its subscription through a proxy whose context was done: the unregistration call was refused locally, the server keeps A's registration; a later subscription of the same client registers again and receives every event twice: %v", c.got)
+		case fmt.Sprint(c.got) != "[5]":
+			failf("event-lost/parent-proxy-after-derived-context-ended", "a subscription through the original proxy, opened after the derived proxy's context ended, received %v of [5]", c.got)
+		}
 	}
 	flush()
 	fx.Settle()
